@@ -57,20 +57,36 @@ func shadowsTParam(c *Case, p *Prediction) bool {
 	if p == nil {
 		return false
 	}
-	si := -1
+	si := 0
 	for _, it := range requested(c) {
+		first := si
+		si += len(it.Methods)
+		if len(it.TParams) == 0 {
+			continue
+		}
+		// the names of the type parameters as moq will write them: the declared ones and,
+		// for blank ones, what the Scope model says moq invents (the scope after the methods')
 		tps := map[string]bool{}
 		for _, tp := range it.TParams {
-			tps[tp.Name] = true
+			if tp.Name != "_" {
+				tps[tp.Name] = true
+			}
 		}
-		for _, m := range it.Methods {
-			si++
-			if len(tps) == 0 || si >= len(p.Names) {
+		if si < len(p.Names) {
+			for _, names := range p.Names[si] {
+				for _, n := range names {
+					tps[n] = true
+				}
+			}
+		}
+		si++ // the type-parameter scope follows the methods
+		for k, m := range it.Methods {
+			if first+k >= len(p.Names) {
 				continue
 			}
-			for _, names := range p.Names[si] {
-				for k, n := range names {
-					if k >= len(m.Params) && !c.Cfg.Stub {
+			for _, names := range p.Names[first+k] {
+				for j, n := range names {
+					if j >= len(m.Params) && !c.Cfg.Stub {
 						break
 					}
 					if tps[n] { // the receiver's type parameters and the parameters share one block
@@ -78,9 +94,6 @@ func shadowsTParam(c *Case, p *Prediction) bool {
 					}
 				}
 			}
-		}
-		if len(it.TParams) > 0 {
-			si++ // the type-parameter scope follows the methods
 		}
 	}
 	return false
